@@ -61,6 +61,18 @@ CHECKS = {
          "For generated asset lists every subset of registered ledgers, every failing subset and every completion order (<= 4 ledgers; sampled above) of Register/Progress/Withdraw/Fund (incl. every egoistic index) is executed; the per-ledger call log must show each distinct ledger of the assets exactly once on success (at most once on failure) and no other, the result must be an error iff a ledger is unregistered or a sub-call failed, and the egoistic ledger must be funded only after all others succeeded.",
          "Trusted: the scripted ledgers; completion order is controlled by releasing blocked sub-calls at harness-detected stable points (goroutine count), so no wall-clock verdicts.",
          "DESIGN.md §5 C20"),
+ "C03": ("exploration", "runtime monitoring: generated life-cycle scenarios of two real clients on a strict reference ledger with a logical clock; conservation/payout oracle over ledger balances and recorded Enabled streams",
+         "Scenario programs (payments, accept/reject, optional sub-channel, cooperative or disputed settlement, settle order, secondary flags, funding agreements) run on the real client, watcher and state machines; the strict ledger verifies signatures/versions/challenge period and logs every call. After both Settle calls returned, each party's on-chain delta must equal its balance in the last state both enabled minus exactly the agreed funding, totals must be unchanged and nothing may remain held; a ledger refusal of an honest call is reported.",
+         "Trusted: the strict ledger (harness/internal/ledger) as reference adjudicator, including that Withdraw waits for the challenge period like real backends; schedules come from bus noise, handler yields and the scheduler. Runs with timeouts or failing Settle calls are inconclusive for the payout oracle.",
+         "DESIGN.md §5 C03"),
+ "C04": ("exploration", "runtime monitoring with an adversary: recorded old transactions registered directly on the strict ledger at enumerated trigger points (between operations and with an update in flight, gated), verdict at ledger idleness on the logical clock",
+         "For every (trigger point x old version) of short histories, and sampled for long ones, the peer registers an outdated fully signed state (with the oldest sub-channel states); when the ledger is idle and before the logical clock moves the registered version must be >= the honest party's newest enabled version (also for locked sub-channels), the ledger must accept the watcher's refutation, and after timeout and settlement the honest payout must be >= its newest balance. The known finding D24 (update in flight) is reported as KNOWN-FINDING by its observed history class.",
+         "Trusted: strict ledger and its idleness notion (no call in flight, no subscriber about to wake, every subscriber in Next or waiting for a timeout); the adversary runs no watcher of its own. No wall-clock verdicts.",
+         "DESIGN.md §5 C04"),
+ "C06": ("exploration", "runtime monitoring: invariant monitors inside the recording persisters of both clients (called under the channel lock) plus result/agreement comparison over generated update programs under schedule noise and the race detector",
+         "Programs of proposals (sequential, same-side concurrent, cross-channel, both-sides concurrent) with accept/reject decisions and handler delays; at every Enabled event the transaction must be fully signed with version = previous+1, persister calls per channel must not overlap, and in runs without timeouts versions differ by at most one, no version gets two fully signed states, Update results agree with both parties' states and both stay ready for further updates.",
+         "Trusted: recording persister ordering (one shared counter); decisions are fed to the handler in FIFO order per (receiver, channel). Runs with timeouts keep only the fully-signed invariant, as the statement says.",
+         "DESIGN.md §5 C06"),
 }
 PENDING = {}  # id -> reason, for properties without a check
 
